@@ -152,8 +152,32 @@ Print Assumptions C19_one_result_partial.
 Theorem C19_registration_queued : forall s k w, ereachable s ->
   nth_error (e_workers s) k = Some w -> w_pc w = WWait -> w_opened w = false ->
   exists l cid, get_loop s (w_loop w) = Some l /\ In (TReg cid (OWorker k)) (l_q l).
-Proof. exact inv_q_reachable. Qed.
+Proof. exact registration_queued. Qed.
 Print Assumptions C19_registration_queued.
+
+(* FULL statement of the first clause of the property for every never-started handle.  It is
+   FALSE on the current tree (known finding C19 never-started-handle-not-empty): the handle
+   captured in OnBoot has an engine with listeners, so Validate answers nil although the
+   engine was never started (e.g. OnBoot returned Shutdown and Run has returned). *)
+Definition C19_never_started_full : Prop := forall s,
+  ereachable s -> e_started s = false -> validate (phase_s s) = REmpty.
+
+Theorem C19_never_started_refuted : exists s, ereachable s /\ returned s = true /\ e_started s = false /\
+  validate (phase_s s) = RNil /\ stop_entry (phase_s s) = None /\
+  dup_res (phase_s s) (c_nlis (e_cfg s)) (lis_open s) = ROsErr.
+Proof. exact never_started_refuted. Qed.
+Print Assumptions C19_never_started_refuted.
+
+(* the partial theorem: a handle whose engine never reached OnBoot (the zero Engine{}) is empty;
+   e_alloc s = false holds exactly until Run / Client.Start calls OnBoot *)
+Theorem C19_never_started_partial : forall s, e_alloc s = false ->
+  phase_s s = PEmpty /\ validate (phase_s s) = REmpty /\ stop_entry (phase_s s) = Some REmpty.
+Proof. exact never_started_partial. Qed.
+Print Assumptions C19_never_started_partial.
+
+Theorem C19_alloc_iff_booted : forall s, ereachable s -> (e_alloc s = false <-> e_r s = R0).
+Proof. exact alloc_iff_booted. Qed.
+Print Assumptions C19_alloc_iff_booted.
 
 (* ---- non-vacuity: evaluated by the kernel *)
 
